@@ -148,3 +148,285 @@ Proof.
       assert (Q2 : (lst s 0, lst s 1, lst s 2, token s 0) = ([], [], [], None)) by (apply P2; vm_compute; reflexivity).
       injection Q1 as -> -> -> -> ->. injection Q2 as -> -> -> ->. repeat split.
 Qed.
+
+(* ---------------------------------------------------------------- no reachable state is stuck *)
+Definition needs_item (p : pc) : bool :=
+  match p with
+  | PW_head _ | PW_pop _ | PW_run _ _ true | PW_incall _ _ true | PW_invoking _ _ true | PW_next _ true => true
+  | _ => false
+  end.
+
+Section Progress.
+  Variable F : forest.
+  Hypothesis FOK : forest_ok F.
+
+  Definition frame_fed (s : gst) (f : frame) : Prop := needs_item (snd f) = true -> lst s (fst f) <> [].
+  (* a drainer that counts on a next entry has one *)
+  Definition L1 (s : gst) : Prop := forall t, Forall (frame_fed s) (stk s t).
+  (* an entry whose link is not yet published has its enqueuer one step from publishing it *)
+  Definition L2 (s : gst) : Prop :=
+    forall l e, In e (lst s l) -> e_linked e = false -> exists t w q r, stk s t = (l, PA_link (e_ent e) w q) :: r.
+  Definition Inv2 (s : gst) : Prop := Inv F s /\ L1 s /\ L2 s.
+
+  Lemma Inv2_init : Inv2 (init_state F).
+  Proof.
+    split; [apply Inv_init; exact FOK|]. split.
+    - intros t. unfold init_state; cbn [stk]. constructor.
+    - intros l e. unfold init_state; cbn [lst]. contradiction.
+  Qed.
+
+  Lemma fed_ret s r : Forall (frame_fed s) r -> Forall (frame_fed s) (ret r).
+  Proof.
+    destruct r as [|[x q] r']; [auto|]. intros H. destruct q; try exact H.
+    inversion H as [|f k Hf Hk]; subst. constructor; [|exact Hk]. unfold frame_fed in *. cbn [fst snd needs_item] in *. exact Hf.
+  Qed.
+
+  Lemma fed_mono s s' k : (forall x, lst s x <> [] -> lst s' x <> []) -> Forall (frame_fed s) k -> Forall (frame_fed s') k.
+  Proof. intros M H. induction H as [|f k Hf Hk IH]; constructor; [|exact IH]. unfold frame_fed in *. intros N. apply M. apply Hf. exact N. Qed.
+
+  Lemma L1_mono s s' t :
+    L1 s -> (forall x, lst s x <> [] -> lst s' x <> []) -> (forall u, u <> t -> stk s' u = stk s u) ->
+    Forall (frame_fed s') (stk s' t) -> L1 s'.
+  Proof.
+    intros H M O Ht u. destruct (Z.eq_dec u t) as [->|N]; [exact Ht|]. rewrite (O u N). apply (fed_mono s s' _ M). apply H.
+  Qed.
+
+  Lemma L2_same s s' t :
+    L2 s -> (forall x, lst s' x = lst s x) -> (forall u, u <> t -> stk s' u = stk s u) ->
+    (forall l e w q r, stk s t <> (l, PA_link e w q) :: r) -> L2 s'.
+  Proof.
+    intros H Ls O Nt l e Hin Hl. rewrite Ls in Hin. destruct (H l e Hin Hl) as (u & w & q & r & E).
+    exists u, w, q, r. rewrite O; [exact E|]. intros ->. exact (Nt _ _ _ _ _ E).
+  Qed.
+
+  (* the entries of a list are pairwise different: item ids by the order equation, lane objects by the token *)
+  Lemma count_le_one s l x : Inv F s -> (count_lane x (lst s l) <= 1)%nat.
+  Proof.
+    intros [L _]. destruct (L x) as [r G]. pose proof (g_where F s x r G l) as H. rewrite H.
+    destruct (token s x) as [[w|]|]; try lia. destruct (target F x) as [p|]; try lia. destruct (p =? l); lia.
+  Qed.
+
+  Lemma items_nodup s l : Inv F s -> NoDup (items (lst s l)).
+  Proof.
+    intros [L _]. destruct (L l) as [r G]. pose proof (g_order F s l r G) as H.
+    pose proof (zrange_nodup (nextid s l)) as ND. rewrite <- H in ND.
+    apply nodup_app_r in ND. apply nodup_app_r in ND. exact ND.
+  Qed.
+
+  Lemma ents_nodup_gen k : NoDup (items k) -> (forall x, (count_lane x k <= 1)%nat) -> NoDup (map e_ent k).
+  Proof.
+    induction k as [|e k IH]; cbn [map]; intros ND C; [constructor|].
+    assert (NDk : NoDup (items k)).
+    { unfold items in *. cbn [flat_map] in ND. apply nodup_app_r in ND. exact ND. }
+    assert (Ck : forall x, (count_lane x k <= 1)%nat) by (intros x; specialize (C x); cbn [count_lane] in C; lia).
+    constructor; [|apply IH; assumption].
+    intros Hin. apply in_map_iff in Hin. destruct Hin as (e' & Ee & He').
+    destruct (e_ent e) as [i|y] eqn:E.
+    - unfold items in ND. cbn [flat_map] in ND. rewrite E in ND. cbn [app] in ND. inversion ND as [|a b Ha Hb]; subst.
+      apply Ha. apply in_flat_map. exists e'. split; [exact He'|]. rewrite Ee. left. reflexivity.
+    - specialize (C y). cbn [count_lane] in C. rewrite E, Z.eqb_refl in C.
+      pose proof (in_count_pos y k e' He' Ee). lia.
+  Qed.
+
+  Lemma ents_nodup s l : Inv F s -> NoDup (map e_ent (lst s l)).
+  Proof. intros I. apply ents_nodup_gen; [apply items_nodup; exact I | intros x; apply count_le_one; exact I]. Qed.
+
+  Lemma ent_eqb_eq a b : ent_eqb a b = true <-> a = b.
+  Proof.
+    destruct a as [i|x], b as [j|y]; cbn [ent_eqb]; split; intros H; try discriminate; try (apply Z.eqb_eq in H; congruence); try (injection H as ->; apply Z.eqb_refl).
+  Qed.
+
+  (* after the link of e is published, every entry still unlinked was unlinked before and is not e *)
+  Lemma in_link_ent k e x : NoDup (map e_ent k) -> In x (link_ent k e) -> e_linked x = false -> In x k /\ e_ent x <> e.
+  Proof.
+    induction k as [|y k IH]; cbn [link_ent map]; intros ND Hin Hl; [contradiction|].
+    inversion ND as [|a b Ha Hb]; subst.
+    destruct (ent_eqb (e_ent y) e && negb (e_linked y)) eqn:C.
+    - apply andb_true_iff in C. destruct C as [C _]. apply ent_eqb_eq in C.
+      destruct Hin as [<-|Hin]; [cbn in Hl; discriminate|]. split; [right; exact Hin|].
+      intros E'. apply Ha. rewrite C, <- E'. apply in_map. exact Hin.
+    - destruct Hin as [->|Hin].
+      + split; [left; reflexivity|]. intros E'. rewrite Hl in C. cbn [negb] in C. rewrite andb_true_r in C.
+        assert (ent_eqb (e_ent x) e = true) by (apply ent_eqb_eq; exact E'). congruence.
+      + destruct (IH Hb Hin Hl) as [H1 H2]. split; [right; exact H1 | exact H2].
+  Qed.
+
+  Lemma top_holder_unique s t u l p r q :
+    Inv F s -> stk s t = (l, p) :: r -> is_drain p = true -> In (l, q) (stk s u) -> is_drain q = true -> u = t.
+  Proof.
+    intros [L T] E D Hin Dq.
+    pose proof (drain_frame_token F s u l q (T u) Hin Dq) as K1.
+    pose proof (holder_of_top F s t l p r (T t) E D) as K2. congruence.
+  Qed.
+
+  Lemma needs_item_drain p : needs_item p = true -> is_drain p = true.
+  Proof. destruct p; cbn; congruence. Qed.
+
+  Theorem step2_preserves s a s' : Inv2 s -> step F s a s' -> Inv2 s'.
+  Proof.
+    intros (I & H1 & H2) St. pose proof (step_preserves F FOK s a s' I St) as I'. split; [exact I'|].
+    destruct a as [t c|t o]; destruct St as [V B].
+    - (* begin *)
+      destruct c as [l q|b fl]; cbn [begin] in B.
+      + destruct ((0 <=? q) && (q <? 8) && in_callout (stk s t)) eqn:C; [|discriminate]. injection B as <-.
+        apply andb_true_iff in C. destruct C as [_ C]. split.
+        * apply (L1_mono s _ t H1); sproj; auto; [intros u N; apply upd_other; exact N|].
+          rewrite upd_same. constructor; [intros N; discriminate | apply H1].
+        * apply (L2_same s _ t H2); sproj; auto; [intros u N; apply upd_other; exact N|].
+          intros l0 e w q0 r E. rewrite E in C. discriminate.
+      + destruct (stk s t) eqn:E; [|discriminate]. destruct (target F b); [discriminate|]. destruct (0 <? rootq s b); [|discriminate].
+        injection B as <-. split.
+        * apply (L1_mono s _ t H1); sproj; auto; [intros u N; apply upd_other; exact N|].
+          rewrite upd_same. constructor; [intros N; discriminate | constructor].
+        * apply (L2_same s _ t H2); sproj; auto; [intros u N; apply upd_other; exact N|].
+          intros l0 e w q0 r E'. congruence.
+    - pose proof (fun u => gstep_frame F s t o s' u B) as Fr.
+      unfold gstep in B. destruct (stk s t) as [|[l p] r] eqn:E; [discriminate|].
+      assert (Hr : Forall (frame_fed s) r) by (specialize (H1 t); rewrite E in H1; inversion H1; assumption).
+      assert (Htop : frame_fed s (l, p)) by (specialize (H1 t); rewrite E in H1; inversion H1; assumption).
+      assert (Oth : forall u, u <> t -> stk s' u = stk s u) by (intros u N; apply Fr; exact N).
+      destruct p.
+      + (* PA_xchg *)
+        assert (M : forall x, lst s x <> [] ->
+                    upd (lst s) l (lst s l ++ [{| e_ent := match w with WItem => Item (nextid s l) | WLane l' => Lane l' end; e_linked := false |}]) x <> []).
+        { intros x. destruct (Z.eq_dec x l) as [->|N]; [rewrite upd_same; intros _; destruct (lst s l); discriminate | rewrite upd_other by exact N; auto]. }
+        destruct w as [|l']; injection B as <-; (split;
+          [ apply (L1_mono s _ t H1); sproj;
+            [ exact M
+            | intros u N; apply upd_other; exact N
+            | rewrite upd_same; constructor; [intros N; discriminate|]; apply (fed_mono s _ r); [|exact Hr]; exact M ]
+          | intros x e; sproj; destruct (Z.eq_dec x l) as [->|N]; [rewrite upd_same | rewrite upd_other by exact N]; intros Hin Hl;
+            [ apply in_app_or in Hin; destruct Hin as [Hin|[<-|[]]];
+              [ destruct (H2 l e Hin Hl) as (u & w0 & q0 & r0 & Eu); exists u, w0, q0, r0; rewrite upd_other; [exact Eu|]; intros ->; congruence
+              | exists t; eexists; eexists; eexists; rewrite upd_same; reflexivity ]
+            | destruct (H2 x e Hin Hl) as (u & w0 & q0 & r0 & Eu); exists u, w0, q0, r0; rewrite upd_other; [exact Eu|]; intros ->; congruence ] ]).
+      + (* PA_link *) split.
+        * assert (M : forall x, lst s x <> [] -> lst (set_lst s l (link_ent (lst s l) e)) x <> []).
+          { intros x. sproj. destruct (Z.eq_dec x l) as [->|N]; [rewrite upd_same, link_nil_iff; auto | rewrite upd_other by exact N; auto]. }
+          destruct was_empty; [|destruct o]; injection B as <-; apply (L1_mono s _ t H1); sproj; auto;
+            try (intros u N; apply upd_other; exact N); rewrite upd_same;
+            try (constructor; [intros N; discriminate|]); try apply fed_ret; apply (fed_mono s _ r M Hr).
+        * intros x y Hin Hl.
+          assert (Hin' : In y (upd (lst s) l (link_ent (lst s l) e) x)) by (destruct was_empty; [|destruct o]; injection B as <-; exact Hin).
+          destruct (Z.eq_dec x l) as [->|N]; [rewrite upd_same in Hin' | rewrite upd_other in Hin' by exact N].
+          -- destruct (in_link_ent _ _ _ (ents_nodup s l I) Hin' Hl) as [Hy Ne].
+             destruct (H2 l y Hy Hl) as (u & w0 & q0 & r0 & Eu). exists u, w0, q0, r0. rewrite Oth; [exact Eu|]. intros ->.
+             rewrite E in Eu. injection Eu as Ee _ _ _. congruence.
+          -- destruct (H2 x y Hin' Hl) as (u & w0 & q0 & r0 & Eu). exists u, w0, q0, r0. rewrite Oth; [exact Eu|]. intros ->.
+             rewrite E in Eu. injection Eu as Ex _ _ _ _. congruence.
+      + (* PA_probe *) injection B as <-. split.
+        * destruct (lst s l) eqn:Ll; apply (L1_mono s _ t H1); sproj; auto; try (intros u N; apply upd_other; exact N); rewrite upd_same.
+          -- apply fed_ret. exact Hr.
+          -- constructor; [intros N; discriminate | exact Hr].
+        * apply (L2_same s _ t H2); [destruct (lst s l); reflexivity | exact Oth | rewrite E; intros; discriminate].
+      + (* PA_wake *)
+        destruct (w_wake qos dirty (st s l)) eqn:Ww; try discriminate.
+        * injection B as <-. split.
+          -- destruct (enq_flipped (st s l) new); apply (L1_mono s _ t H1); sproj; auto; try (intros u N; apply upd_other; exact N); rewrite upd_same.
+             ++ constructor; [intros N; discriminate | exact Hr].
+             ++ apply fed_ret. exact Hr.
+          -- apply (L2_same s _ t H2); [destruct (enq_flipped (st s l) new); reflexivity | exact Oth | rewrite E; intros; discriminate].
+        * destruct dirty; [discriminate|]. injection B as <-. split.
+          -- apply (L1_mono s _ t H1); sproj; auto; try (intros u N; apply upd_other; exact N). rewrite upd_same. apply fed_ret. exact Hr.
+          -- apply (L2_same s _ t H2); [reflexivity | exact Oth | rewrite E; intros; discriminate].
+      + (* PA_tpush *) injection B as <-. split.
+        * destruct (target F l); apply (L1_mono s _ t H1); sproj; auto; try (intros u N; apply upd_other; exact N); rewrite upd_same.
+          -- constructor; [intros N; discriminate | exact Hr].
+          -- apply fed_ret. exact Hr.
+        * apply (L2_same s _ t H2); [destruct (target F l); reflexivity | exact Oth | rewrite E; intros; discriminate].
+      + (* PW_lock *)
+        destruct (w_lock t floor (st s l)) as [nw ow|rv ops|ops|tg] eqn:Wl; try discriminate.
+        * injection B as <-. split.
+          -- destruct (ow =? 0); apply (L1_mono s _ t H1); sproj; auto; try (intros u N; apply upd_other; exact N); rewrite upd_same.
+             ++ apply fed_ret. exact Hr.
+             ++ constructor; [intros N; discriminate | exact Hr].
+          -- apply (L2_same s _ t H2); [destruct (ow =? 0); reflexivity | exact Oth | rewrite E; intros; discriminate].
+        * injection B as <-. split.
+          -- apply (L1_mono s _ t H1); sproj; auto; try (intros u N; apply upd_other; exact N). rewrite upd_same. constructor; [intros N; discriminate | exact Hr].
+          -- apply (L2_same s _ t H2); [reflexivity | exact Oth | rewrite E; intros; discriminate].
+      + (* PW_tail *) injection B as <-. split.
+        * apply (L1_mono s _ t H1); sproj; auto; try (intros u N; apply upd_other; exact N). rewrite upd_same.
+          constructor; [|exact Hr]. unfold frame_fed; cbn [fst snd]; sproj. destruct (lst s l); [intros N; discriminate | intros _; discriminate].
+        * apply (L2_same s _ t H2); [reflexivity | exact Oth | rewrite E; intros; discriminate].
+      + (* PW_head *) destruct (lst s l) as [|e0 l0] eqn:Ll; [discriminate|]. destruct (e_linked e0); [|discriminate]. injection B as <-. split.
+        * apply (L1_mono s _ t H1); sproj; auto; try (intros u N; apply upd_other; exact N). rewrite upd_same.
+          constructor; [|exact Hr]. unfold frame_fed; cbn [fst snd]; sproj. rewrite Ll. intros _. discriminate.
+        * apply (L2_same s _ t H2); [reflexivity | exact Oth | rewrite E; intros; discriminate].
+      + (* PW_pop: only the drainer of l shortens l's list *)
+        assert (Pop : forall e0 rest more, lst s l = e0 :: rest -> (more = match rest with [] => false | _ => true end) ->
+                      L1 (after_pop s t l e0 rest more r) /\ L2 (after_pop s t l e0 rest more r)).
+        { intros e0 rest more Ll Em. unfold after_pop. split.
+          - intros u. destruct (Z.eq_dec u t) as [->|N].
+            + assert (St : stk (set_stk (match e_ent e0 with Lane l' => set_token (set_lst s l rest) l' (Some (Some t)) | Item _ => set_lst s l rest end) t
+                                   ((l, PW_run OWN (e_ent e0) more) :: r)) t = (l, PW_run OWN (e_ent e0) more) :: r) by (sproj; apply upd_same).
+              rewrite St. constructor.
+              * unfold frame_fed; cbn [fst snd needs_item]. subst more. destruct rest; [intros N; discriminate|].
+                intros _. destruct (e_ent e0); sproj; rewrite upd_same; discriminate.
+              * (* the frames below are on other lanes *)
+                destruct I as [L T]. destruct (tinv_top F s t l _ r (T t) E) as (T1 & _).
+                clear St. induction Hr as [|[x q] k Hf Hk IH]; constructor.
+                -- unfold frame_fed in *; cbn [fst snd] in *. intros N. specialize (Hf N).
+                   assert (x <> l).
+                   { intros ->. cbn [frame_tokens is_drain app] in T1. inversion T1 as [|a b Ha Hb]; subst. apply Ha.
+                     rewrite holds_cons. apply in_or_app. left. apply needs_item_drain in N.
+                     unfold frame_tokens. destruct q; cbn in N |- *; try discriminate; try (left; reflexivity). destruct e; left; reflexivity. }
+                   destruct (e_ent e0); sproj; rewrite upd_other by assumption; exact Hf.
+                -- apply IH. cbn [frame_tokens is_drain app] in T1 |- *. rewrite holds_cons in T1.
+                   inversion T1 as [|a b Ha Hb]; subst. constructor; [|apply nodup_app_r in Hb; exact Hb].
+                   intros Hin. apply Ha. apply in_or_app. right. exact Hin.
+            + assert (St : stk (set_stk (match e_ent e0 with Lane l' => set_token (set_lst s l rest) l' (Some (Some t)) | Item _ => set_lst s l rest end) t
+                                   ((l, PW_run OWN (e_ent e0) more) :: r)) u = stk s u) by (sproj; apply upd_other; exact N).
+              rewrite St. specialize (H1 u). clear St.
+              assert (Hu : forall f, In f (stk s u) -> needs_item (snd f) = true -> fst f <> l).
+              { intros [x q] Hin Nq -> . cbn [fst snd] in *. apply N. apply (top_holder_unique s t u l _ r q I E eq_refl Hin). apply needs_item_drain. exact Nq. }
+              induction H1 as [|f k Hf Hk IH]; constructor.
+              * unfold frame_fed in *. intros Nq. specialize (Hf Nq). specialize (Hu f (or_introl eq_refl) Nq).
+                destruct (e_ent e0); sproj; rewrite upd_other by assumption; exact Hf.
+              * apply IH. intros f0 Hin. apply Hu. right. exact Hin.
+          - intros x y.
+            assert (Ls : lst (set_stk (match e_ent e0 with Lane l' => set_token (set_lst s l rest) l' (Some (Some t)) | Item _ => set_lst s l rest end) t
+                                   ((l, PW_run OWN (e_ent e0) more) :: r)) x = upd (lst s) l rest x) by (destruct (e_ent e0); reflexivity).
+            rewrite Ls. intros Hin Hl.
+            assert (Hin' : In y (lst s x)).
+            { destruct (Z.eq_dec x l) as [->|N]; [rewrite upd_same in Hin; rewrite Ll; right; exact Hin | rewrite upd_other in Hin by exact N; exact Hin]. }
+            destruct (H2 x y Hin' Hl) as (u & w0 & q0 & r0 & Eu). exists u, w0, q0, r0.
+            assert (u <> t) by (intros ->; congruence).
+            destruct (e_ent e0); sproj; rewrite upd_other by assumption; exact Eu. }
+        assert (owned = OWN).
+        { destruct I as [_ T]. apply (owned_top F s t l _ r owned (T t) E). reflexivity. }
+        subst owned.
+        destruct (lst s l) as [|e0 [|e2 l0]] eqn:Ll; [discriminate| |].
+        * injection B as <-. apply (Pop e0 [] false eq_refl eq_refl).
+        * destruct (e_linked e2); [|discriminate]. injection B as <-. apply (Pop e0 (e2 :: l0) true eq_refl eq_refl).
+      + (* PW_run *) injection B as <-. split.
+        * destruct e; apply (L1_mono s _ t H1); sproj; auto; try (intros u N; apply upd_other; exact N); rewrite upd_same.
+          -- constructor; [exact Htop | exact Hr].
+          -- constructor; [intros N; discriminate|]. constructor; [exact Htop | exact Hr].
+        * apply (L2_same s _ t H2); [destruct e; reflexivity | exact Oth | rewrite E; intros; discriminate].
+      + (* PW_incall *) injection B as <-. split.
+        * apply (L1_mono s _ t H1); sproj; auto; try (intros u N; apply upd_other; exact N). rewrite upd_same. constructor; [exact Htop | exact Hr].
+        * apply (L2_same s _ t H2); [reflexivity | exact Oth | rewrite E; intros; discriminate].
+      + discriminate.
+      + (* PW_next *) destruct more; injection B as <-; split.
+        * apply (L1_mono s _ t H1); sproj; auto; try (intros u N; apply upd_other; exact N). rewrite upd_same. constructor; [|exact Hr].
+          intros _. apply Htop. reflexivity.
+        * apply (L2_same s _ t H2); [reflexivity | exact Oth | rewrite E; intros; discriminate].
+        * apply (L1_mono s _ t H1); sproj; auto; try (intros u N; apply upd_other; exact N). rewrite upd_same. constructor; [|exact Hr].
+          unfold frame_fed; cbn [fst snd]; sproj. destruct (lst s l); [intros N; discriminate | intros _; discriminate].
+        * apply (L2_same s _ t H2); [reflexivity | exact Oth | rewrite E; intros; discriminate].
+      + (* PW_unlock *) destruct (w_unlock owned (st s l)); try discriminate; injection B as <-; split.
+        * apply (L1_mono s _ t H1); sproj; auto; try (intros u N; apply upd_other; exact N). rewrite upd_same. apply fed_ret. exact Hr.
+        * apply (L2_same s _ t H2); [reflexivity | exact Oth | rewrite E; intros; discriminate].
+        * apply (L1_mono s _ t H1); sproj; auto; try (intros u N; apply upd_other; exact N). rewrite upd_same. constructor; [intros N; discriminate | exact Hr].
+        * apply (L2_same s _ t H2); [reflexivity | exact Oth | rewrite E; intros; discriminate].
+      + (* PW_xor *) injection B as <-. split.
+        * apply (L1_mono s _ t H1); sproj; auto; try (intros u N; apply upd_other; exact N). rewrite upd_same.
+          constructor; [destruct (target F l); intros N; discriminate | exact Hr].
+        * apply (L2_same s _ t H2); [reflexivity | exact Oth | rewrite E; intros; discriminate].
+      + (* PW_finish *) destruct (w_finish owned (st s l)); try discriminate. injection B as <-. split.
+        * destruct (enq_flipped (u64 (st s l - owned)) new); apply (L1_mono s _ t H1); sproj; auto; try (intros u N; apply upd_other; exact N); rewrite upd_same.
+          -- constructor; [intros N; discriminate | exact Hr].
+          -- apply fed_ret. exact Hr.
+        * apply (L2_same s _ t H2); [destruct (enq_flipped (u64 (st s l - owned)) new); reflexivity | exact Oth | rewrite E; intros; discriminate].
+  Qed.
+End Progress.
